@@ -129,7 +129,7 @@ def Record.get (r : Record) : Key → Option JV
   | .cancelled => flag r.cancelled (.bool true)
   | .server_version => r.serverVersion.map .str
   | .request_id => r.requestId.map .str
-  | .http_status => r.httpStatus.map fun n => .int n
+  | .http_status => r.httpStatus.map fun (n : Nat) => JV.int (n : Int)
   | .request_data => flag r.requestData (.str b64Placeholder)
   | .original_request_bytes => flag r.originalRequestBytes (.int 0)
   | .truncated => r.truncated.map Trunc.jv
@@ -261,16 +261,19 @@ structure StreamM where
 inductive Fin where | close | cancel
 deriving Repr, DecidableEq
 
-/-- one client call.  `over` = the wire-cap verdict on a response that was otherwise fine (`_enforce_response_budgets`, HTTP
-only): an arbitrary oracle, `none` = within budget.  `demand` = how many batches the caller pulls (`none` = to the end). -/
+/-- one client call.  `demand` = how many batches the caller pulls (`none` = to the end).  Two oracles stand for byte
+counts the model does not compute (HTTP only, arbitrary): `over` = the wire-cap verdict on a response that was otherwise
+fine (`_enforce_response_budgets`; `none` = within budget), `brk pos` = the producer turn ends with a token after the step
+at `pos` (no cap: always; cap: once the body has reached it). -/
 inductive Call where
   | unary (m : UnaryM) (over : Option Exn)
-  | producer (m : StreamM) (demand : Option Nat) (fin : Fin)
+  | producer (m : StreamM) (brk : Nat → Bool) (demand : Option Nat) (fin : Fin)
   | exchange (m : StreamM) (sends : Nat) (over : Nat → Option Exn) (fin : Fin)
 
 inductive Transport where
   | pipe                                   -- pipe / unix / tcp / shm: one `serve_one` per call
-  | http (brk : Nat → Bool)                -- break decision after the step at each position (cap, codec)
+  | http
+deriving Repr, DecidableEq
 
 /-! ## Socket family: `serve_one` -/
 namespace Pipe
@@ -342,7 +345,7 @@ def pulls (m : StreamM) : Option Nat → Nat
 
 def call (env : Env) (n : Nat) : Call → List Record
   | .unary m _ => unary env m
-  | .producer m d fin => stream env n m (inputs (pulls m d) fin)
+  | .producer m _ d fin => stream env n m (inputs (pulls m d) fin)
   | .exchange m sends _ fin => stream env n m (inputs sends fin)
 
 end Pipe
@@ -495,9 +498,9 @@ def finReq (can : Bool) : Fin → List Req
   | .close => []
   | .cancel => if can then [.cancel] else []
 
-def requests (brk : Nat → Bool) : Call → List Req
+def requests : Call → List Req
   | .unary _ _ => [.init]
-  | .producer m d fin =>
+  | .producer m brk d fin =>
     match m.init with
     | some _ => [.init]
     | none => .init :: (producerConts brk m d).map .cont ++ finReq (producerCanCancel brk m) fin
@@ -512,18 +515,18 @@ def serve (env : Env) (brk : Nat → Bool) (n : Nat) (m : StreamM) : Req → Lis
   | .exch pos over => exch env n m pos over
   | .cancel => cancel env n m
 
-def call (env : Env) (brk : Nat → Bool) (n : Nat) (c : Call) : List Record :=
+def call (env : Env) (n : Nat) (c : Call) : List Record :=
   match c with
   | .unary m over => unary env m over
-  | .producer m _ _ => (requests brk c).flatMap (serve env brk n m)
-  | .exchange m _ _ _ => (requests brk c).flatMap (serve env brk n m)
+  | .producer m brk _ _ => (requests c).flatMap (serve env brk n m)
+  | .exchange m _ _ _ => (requests c).flatMap (serve env (fun _ => true) n m)
 
 end Http
 
 /-- the records of one call (the `n`-th of the program) on a transport -/
 def callRecords (env : Env) : Transport → Nat → Call → List Record
   | .pipe, n, c => Pipe.call env n c
-  | .http brk, n, c => Http.call env brk n c
+  | .http, n, c => Http.call env n c
 
 def runFrom (env : Env) (t : Transport) : Nat → List Call → List (List Record)
   | _, [] => []
@@ -535,7 +538,7 @@ def run (env : Env) (t : Transport) (prog : List Call) : List (List Record) := r
 /-- how many requests reach a dispatch shell (socket family: one `serve_one` per call; HTTP: one per POST) -/
 def dispatches : Transport → Call → Nat
   | .pipe, _ => 1
-  | .http brk, c => (Http.requests brk c).length
+  | .http, c => (Http.requests c).length
 
 /-! ## The formatter -/
 
